@@ -96,6 +96,8 @@ def c04(root, tier, tree):
     tasks += _gen_tasks(root, T["gen"], plan, 300000, gen_kw={"nearmiss": True}, stream="program-nearmiss")
     # cycles through the multi-symbol error transition in front of a negated character class
     tasks += _gen_tasks(root, T["gen"] // 2, plan, 400000, gen_kw={"nearmiss2": True}, stream="program-nearmiss2")
+    # yields and end-of-input on non-consuming paths inside loops (end clauses, else clauses, handlers)
+    tasks += _gen_tasks(root, T["gen"] // 2, plan, 450000, gen_kw={"nearmiss3": True}, stream="program-nearmiss3")
     return tasks
 
 
